@@ -93,7 +93,7 @@ class C05(flatcheck.FlatCheck):
     prop = 'C05'
     manifest = dict(
         level='proof', design='DESIGN.md 4/C05',
-        text="Lean 4 theorem C05_queued_history: for every queued configuration, every script whose callbacks trigger events / remove models / raise arbitrarily, and every history, the engine model's trace follows the abstract FIFO queue (run-to-completion incl. finalize, arrival order, at most once, deferred calls return True, discard on escape, remove_model drops exactly that model's pending entries, drain returns only when empty). Proved by simulation; the same acceptor judges implementation traces; unqueued immediacy by model equality.",
+        text="Lean 4 theorem C05_queued_history: for every queued configuration, every script whose callbacks trigger events / remove models / raise arbitrarily, and every history, the engine model's trace follows the abstract FIFO queue (run-to-completion incl. finalize, arrival order, at most once, deferred calls return True, discard on escape, remove_model drops exactly that model's pending entries, drain returns only when empty). Proved by simulation; the same acceptor judges implementation traces of Machine and of the other synchronous classes; unqueued immediacy by model equality; the asyncio classes (queued=True, queued='model') by a sync-vs-async twin on the same programs (incl. remove_model from callbacks).",
         note="Trusted: Lean kernel, Model/Core.lean (_process, remove_model) tied by trace equality, acceptor Model/Spec/C05.lean, visibility marker (first finalize callback). Hierarchical machines share Machine._process; their queue behaviour is exercised by the nested correspondence.",
         technique="Lean 4 proof (simulation with an abstract queue) + differential correspondence + verified trace monitor")
     level = 'proof'
